@@ -388,6 +388,9 @@ class H2Client:
                 c.close_connection()
             elif name == "trailers":
                 c.send_headers(args[0], list(args[1]), end_stream=True)
+            elif name == "batch":
+                # several commands whose frames leave in ONE segment (the server sees them in one read)
+                return b"".join(self.command(sub[0], tuple(sub[1:])) for sub in args[0])
             elif name == "flush":
                 pass
             elif name == "raw":
@@ -401,6 +404,8 @@ class H2Client:
         return self.take()
 
     def cmd_enabled(self, name: str, args: tuple) -> bool:
+        if name == "batch":
+            return all(self.cmd_enabled(sub[0], tuple(sub[1:])) for sub in args[0][:1])
         if name == "flush":
             return bool(self.pending)
         if name in ("winup", "rst", "ack") and args[0]:
